@@ -622,12 +622,16 @@ theorem sync_ok (c : Cfg) (s : DM) (h : Inv c s) :
         refine ⟨t', by simp [he, a1], ?_, TOK.of_node a3 a4⟩
         rw [a2, chunksOf_flatten c.k hk, hb]
     obtain ⟨cur2, e2, c2, t2⟩ := h2
-    refine ⟨{ s with cur := cur2, writeStart := s.writeStart + buf.length, wrBuf := none }, ?_, ?_, rfl, ?_, rfl, ?_⟩
-    · unfold sync
+    have hs1 : ∃ s1, sync c s = some s1 ∧ s1.cur = cur2 ∧ s1.writeStart = s.writeStart + buf.length ∧
+        s1.curWrOff = s.curWrOff ∧ s1.wrBuf = none := by
+      unfold sync
       simp only [hb, e1, e2]
-    · exact ⟨hw, hk, t2, by intro b hb'; simp at hb'⟩
-    · simp [DM.bytes, hb, c2]
-    · simp [DM.anchor, hb, hbuf buf hb]
+      exact ⟨_, rfl, rfl, rfl, rfl, rfl⟩
+    obtain ⟨s1, q1, q2, q3, q4, q5⟩ := hs1
+    refine ⟨s1, q1, ?_, q5, ?_, q4, ?_⟩
+    · exact ⟨hw, hk, by rw [q2]; exact t2, by intro b hb'; simp [q5] at hb'⟩
+    · simp [DM.bytes, hb, q2, c2]
+    · simp [DM.anchor, hb, hbuf buf hb, q3]
 
 theorem DM.size_eq (c : Cfg) (s : DM) (h : Inv c s) : s.size = s.bytes.length := by
   obtain ⟨_, _, htok, _⟩ := h
@@ -643,7 +647,7 @@ theorem write_ok (c : Cfg) (s : DM) (b : List UInt8) (h : Inv c s) :
   obtain ⟨hw, hk, htok, hbuf⟩ := h
   -- the state with the bytes added to the buffer
   have hs1 : ∀ s1 : DM, s1 = DM.mk s.cur (if s.wrBuf.isNone then s.curWrOff else s.writeStart)
-        (s.curWrOff + b.length) (some (s.wrBuf.getD [] ++ b)) →
+        (s.curWrOff + b.length) (some (s.wrBuf.getD [] ++ b)) s.touched →
       Inv c s1 ∧ s1.bytes = pwrite s.bytes s.curWrOff b ∧ s1.curWrOff = s.curWrOff + b.length ∧
         s1.anchor = s.curWrOff + b.length := by
     intro s1 e
@@ -814,8 +818,13 @@ theorem writeAt_ok (c : Cfg) (s : DM) (b : List UInt8) (off : Nat) (h : Inv c s)
         · exact ⟨s.cur, by simp [hgt], htok, 0, by simp, Or.inl rfl⟩
       obtain ⟨cur1, e1, t1, m, c1, hm⟩ := h1
       simp only [e1]
-      have inv1 : Inv c { s with cur := cur1 } := ⟨hw, hk, t1, hbuf⟩
-      obtain ⟨s2, y1, y2, y3, y4, y5, _⟩ := sync_ok c _ inv1
+      have key : ∀ tb : Bool, ∃ s2, sync c { s with cur := cur1, touched := tb } = some s2 ∧ Inv c s2 ∧
+          s2.wrBuf = none ∧ content s2.cur = ({ s with cur := cur1 } : DM).bytes ∧ s2.curWrOff = s.curWrOff := by
+        intro tb
+        obtain ⟨s2, y1, y2, y3, y4, y5, _⟩ := sync_ok c { s with cur := cur1, touched := tb } ⟨hw, hk, t1, hbuf⟩
+        exact ⟨s2, y1, y2, y3, by simpa [DM.bytes] using y4, y5⟩
+      obtain ⟨s2, y1, y2, y3, y4, y5⟩ := key (s.touched ||
+        (decide (off > s.size) && appendTouches c s.cur (chunksOf 4096 (List.replicate (off - s.size) 0))))
       simp only [y1]
       have inv3 : Inv c { s2 with writeStart := off, curWrOff := off } := by
         obtain ⟨a1, a2, a3, _⟩ := y2
@@ -879,9 +888,12 @@ theorem step_refines (c : Cfg) (s : DM) (op : Op) (h : Inv c s) :
     simp only [step, specStep, C10.abs, w1, w2, if_true, w4, w5, w6]
     exact ⟨w3, trivial, trivial⟩
   | writeAt b off =>
-    obtain ⟨w1, w2, w3, w4, w5, w6⟩ := writeAt_ok c s b off h
-    simp only [step, specStep, C10.abs, w1, w2, if_true, w4, w5, w6]
-    exact ⟨w3, trivial, trivial⟩
+    by_cases hneg : off < 0
+    · simp only [step, specStep, writeAtI, hneg, if_true]
+      exact ⟨h, trivial, by simp⟩
+    · obtain ⟨w1, w2, w3, w4, w5, w6⟩ := writeAt_ok c s b off.toNat h
+      simp only [step, specStep, writeAtI, hneg, if_false, C10.abs, w1, w2, if_true, w4, w5, w6]
+      exact ⟨w3, trivial, trivial⟩
   | seek off whence =>
     obtain ⟨k1, k2, k3⟩ := seek_ok c s off whence h
     simp only [step]
@@ -891,9 +903,12 @@ theorem step_refines (c : Cfg) (s : DM) (op : Op) (h : Inv c s) :
     simp only [step, specStep, C10.abs, r1, r2, if_true, r4, r5, r6]
     exact ⟨r3, trivial, trivial⟩
   | truncate sz =>
-    obtain ⟨t1, t2, t3, t4, t5⟩ := truncate_ctl_ok c s sz h
-    simp only [step, specStep, C10.abs, t1, if_true, t3, t4, t5]
-    exact ⟨t2, rfl, trivial⟩
+    by_cases hneg : sz < 0
+    · simp only [step, specStep, truncateI, hneg, if_true]
+      exact ⟨h, trivial, by simp⟩
+    · obtain ⟨t1, t2, t3, t4, t5⟩ := truncate_ctl_ok c s sz.toNat h
+      simp only [step, specStep, truncateI, hneg, if_false, C10.abs, t1, if_true, t3, t4, t5]
+      exact ⟨t2, rfl, trivial⟩
   | size =>
     simp only [step, specStep, C10.abs, DM.size_eq c s h]
     exact ⟨h, trivial, trivial⟩
